@@ -565,5 +565,35 @@ def rule_never_dirty(ctx):
     ctx.floor(R, "writes of vote-relevant fields", n, 6)
 
 
-RULES = [("C03.1", rule_persist_before_send), ("C03.2", rule_backup_reaches_engine), ("C03.3", rule_no_write_between),
+ENGINE_GET_STATE = "zksync_consensus_engine::manager::EngineManager::get_state"
+IFACE_GET_STATE = "zksync_consensus_engine::interface::EngineInterface::get_state"
+
+
+def rule_restore_passthrough(ctx):
+    R = "C03.12"
+    ctx.rule(R, "what a restarting replica restores is what was stored: EngineManager::get_state returns Ok only with the value the awaited EngineInterface::get_state returned (no filter, no substitute default) - a stored view / phase / high vote that is discarded on restart lets the validator vote again in a view it already voted in")
+    f = ctx.body(ENGINE_GET_STATE)
+    T = ctx.T(f)
+    edges = Q.success_edges(ctx, f, lambda b: Q.is_await_of(b, {IFACE_GET_STATE}))
+    cfg = ctx.cfg(f, with_cancel=False)
+    rets = Q.return_blocks_maybe_ok(ctx, f)
+    ok = bool(edges) and bool(rets) and all(cfg.must_pass(bb, edges) for bb, _ in rets)
+    ctx.ob(R, "get_state after the interface", ok, "every maybe-Ok return of EngineManager::get_state is dominated by success of the awaited EngineInterface::get_state" if ok else
+           "EngineManager::get_state can return Ok without the interface's get_state having succeeded", f.loc())
+    RL = Q.ret_locals(f)
+    bad = []
+    n = 0
+    for bi, b in enumerate(f.blocks):
+        for st in b["s"]:
+            if st["k"] == "assign" and not st["p"].get("pr") and st["p"]["l"] in RL and st["r"]["k"] == "agg" and st["r"].get("variant") == "Ok":
+                n += 1
+                t = T.rvalue(st["r"])
+                if not any(Q.is_await_of(x, {IFACE_GET_STATE}) for x in subterms(t)):
+                    bad.append((bi, show(t)[:120]))
+    ctx.floor(R, "Ok returns of get_state", n, 1)
+    ctx.ob(R, "get_state value", not bad, "every Ok(..) of EngineManager::get_state carries the interface's value" if not bad else
+           "EngineManager::get_state returns %s - a value that is not the stored state (the durable record of the last vote is dropped on restart)" % bad[0][1], f.loc(f.blocks[bad[0][0]]["t"].get("ln")) if bad else f.loc())
+
+
+RULES = [("C03.12", rule_restore_passthrough), ("C03.1", rule_persist_before_send), ("C03.2", rule_backup_reaches_engine), ("C03.3", rule_no_write_between),
          ("C03.4", rule_backup_restore_agree), ("C03.10", rule_proposals_roundtrip), ("C03.6", rule_recorded_vote), ("C03.7", rule_timeout), ("C03.9", rule_who_writes), ("C03.11", rule_never_dirty)]
